@@ -16,7 +16,7 @@ def run(v):
         return
     out = os.path.join(C.WORK, PID)
     n = 60 if v.tier == "quick" else 1500
-    stats = F.gen(v, PID, out, "upload", n)
+    stats = F.gen(v, PID, out, "upload,compact", n)
     if stats is None:
         return
     cases = os.path.join(out, "cases.txt")
@@ -33,10 +33,21 @@ def run(v):
                 "L0 listing (read from disk) and a byte comparison with the local files are recorded; per history the model "
                 "entry upload_run (error class, position, every call and listing) and the oracle upload_inv_ok; after the "
                 "fault-free suffix remote = local and Restore = restore of the local chain = source image (db file + WAL). "
+                "Compaction: the real DB.Compact for L0->L1 and L1->L2 with the sources read from the replica (local L0 "
+                "copies removed) over the fault client: reads of one source fail {initial open; stream error / premature EOF "
+                "at offset 40, 150, size-1, repeated on every re-open; one stream error then failing re-opens; then "
+                "not-exist} x 1,3,4,5 (1..5 thorough) consecutive failures, write outcomes {ok, fail-before, fail-after}; "
+                "around EVERY Compact and its fault-free follow-up: destination objects verify (full decode + checksum) and "
+                "equal an independent ltx merge of the archived L0 files, nil => published + cached, error => cache "
+                "unchanged and nothing new (except fail-after), levels gap-free, Restore = source image; model entry "
+                "compact_run (Faults/Compact.v) and oracle compact_inv_ok; plus a stale-cache scenario (fail-after, more "
+                "writes, L1 and L2 compaction). "
                 "non-trivial = at least one fault was injected. distinct = distinct (entry, input).",
         "samples": stats["samples"],
         "input_distribution": stats["classes"],
         "restores_compared_with_source": stats.get("extra", {}).get("upload_restores"),
+        "compaction_attempts": stats.get("extra", {}).get("compaction_attempts"),
+        "stale_cache_levels": stats.get("extra", {}).get("stale_cache_levels"),
         "model_mismatches": len(mism),
         "runner_errors": errors[:5],
     })
@@ -47,9 +58,26 @@ def run(v):
         steps = rp.get("steps")
         if steps:
             rp["case_lines"] = ["upload_run\t(%s)\t()" % steps]
+        else:
+            rp.update({"part": "compact", "n": n})
         v.violation(iv["signature"], iv["detail"], rp, True)
     inv_bad = [m for m in mism if m["entry"] == "upload_inv_ok"]
     run_bad = [m for m in mism if m["entry"] == "upload_run"]
+    cinv_bad = [m for m in mism if m["entry"] == "compact_inv_ok"]
+    crun_bad = [m for m in mism if m["entry"] == "compact_run"]
+    if cinv_bad and not any(iv["signature"].startswith("C05/compaction") or "compaction" in iv["signature"]
+                            for iv in stats.get("impl_violations", [])):
+        m = cinv_bad[0]
+        v.violation("C05/compaction-invariant",
+                    "an observed Compact outcome breaks compact_inv_ok (%d cases): %s" % (len(cinv_bad), m["case"]),
+                    {"case_lines": [m["case"]], "part": "compact", "n": n}, True)
+    if crun_bad and not cinv_bad and not stats.get("impl_violations"):
+        m = crun_bad[0]
+        v.violation("C05/model-mismatch:compact_run",
+                    "Compactor.Compact and the model Faults/Compact.v disagree on %d attempts (error class, published "
+                    "object or cache); every oracle held" % len(crun_bad),
+                    {"theorem_or_correspondence": "correspondence compact_run (Faults/Compact.v vs compactor.go Compact)",
+                     "case_lines": [m["case"]], "model_says": m["model"][:2000], "part": "compact", "n": n}, False)
     if inv_bad:
         m = inv_bad[0]
         v.violation("C05/gap-or-false-ack",
